@@ -78,7 +78,7 @@ CLAIMS = {
              "payload's advertised length, the payload written into / read from exactly the bytes after the envelope; an EXCEPTION-typed message never touches the caller's struct and surfaces as an "
              "application exception; BufferWriter/BufferReader envelope functions over the bufiox interface contracts. Also: WriteMessageBegin / AppendMessageBegin produce the strict-version envelope encoding for every name, type and sequence id; Binary.ReadMessageBegin decodes exactly that "
              "encoding, rejects every first word without the version marker as BAD_VERSION and every truncation with an error, and reports the exact consumed length.",
-        note="The decoded type id / text of the surfaced application exception are not yet tied to the payload bytes (ApplicationException.FastRead is proved for extent and safety only). " + TRUST,
+        note="ApplicationException.FastRead is additionally proved to be the exact inverse of FastWrite on canonical encodings (message and type id), and the round trip is a machine-checked lemma (lemmaAppExRoundTrip); for non-canonical field orders only extent and safety are specified, so the surfaced exception's id/text are tied to the payload for canonical payloads. " + TRUST,
         design="5 C12"),
     "C13": dict(
         text="Proof for the decoding half (bytes -> tree), for every byte string: ConvertUnknownFields / readUnknownField never panic, terminate (measure: remaining bytes), report a consumed length within the input, and build nodes that carry the id and type they were decoded for, "
@@ -119,7 +119,7 @@ CLAIMS = {
              "DecodeFromBytes: same clauses with the stream being exactly the given bytes. " + TRUST,
         design="5 C10"),
     "C11": dict(
-        text="Proof for ApplicationException: BLength equals the bytes FastWrite/FastWriteNocopy produce, which are the documented field encodings; FastRead never panics, consumes exactly the struct extent "
+        text="Proof for ApplicationException: BLength equals the bytes FastWrite/FastWriteNocopy produce, which are the documented field encodings; FastRead(FastWrite(x)) == x (machine-checked round-trip lemma); FastRead never panics, consumes exactly the struct extent "
              "given by the grammar (unknown or differently-typed fields of any type are skipped with their exact length) and succeeds iff the grammar accepts; FastMarshal/FastUnmarshal over the FastCodec interface contract.",
         note="Base / BaseResp: BLength, FastWrite, FastWriteNocopy are proved equal and byte-exact for a nil or empty Extra map (Go maps are abstracted to their length); FastRead is proved for safety, extent on success and frame; a value is decoded into a struct member only when both field id and type are the member's (call-site assertions, exact 16/32-bit arithmetic), everything else is skipped; the decoded values themselves are those of the reader contracts per call, not restated as a postcondition of FastRead. " + TRUST,
         design="5 C11"),
